@@ -1,5 +1,6 @@
 import Holpy.C15.Model
 import Holpy.C15.Proofs.TraceInv
+import Holpy.C15.Proofs.Fuel
 namespace Holpy.C15
 
 /-! ### the main loop -/
@@ -11,6 +12,7 @@ structure Inv (cnf0 : CNF) (s : St) : Prop where
   trail : TrailOK s.cnf s.tr s.level
   trace : TraceOK s.cnf cnf0.length s.proofs
   reb : ∃ sh, rebuild cnf0 s.proofs = some sh ∧ Shadow sh s.cnf
+  vars : ∀ c ∈ s.cnf, ∀ l ∈ c, l.1 ∈ varsOf cnf0
 
 theorem TrailOK.decide {cnf : CNF} {tr : Trail} {level : Nat} (h : TrailOK cnf tr level)
     (vars : List Nat) : TrailOK cnf (decideVar vars tr (level + 1)) (level + 1) := by
@@ -54,8 +56,9 @@ theorem litTrue_map (tr : Trail) (l : Lit) :
   | none => simp
   | some a => simp
 
-theorem mainLoop_spec (cnf0 : CNF) (vars : List Nat) (nvars af : Nat) :
-    ∀ (fuel : Nat) (s : St) (pr : Prop'), Inv cnf0 s → PrOK s.cnf s.tr pr →
+theorem mainLoop_spec (cnf0 : CNF) (vars : List Nat) (nvars af : Nat)
+    (hnv : (varsOf cnf0).length ≤ nvars) :
+    ∀ (fuel : Nat) (s : St) (pr : Prop'), Inv cnf0 s → PrOK s.cnf s.tr pr → pr ≠ .outOfFuel →
     (∀ a, mainLoop vars nvars af fuel s pr = .sat a → ∀ c ∈ cnf0, c.any (litTrue a) = true) ∧
     (∀ c' ps, mainLoop vars nvars af fuel s pr = .unsat c' ps →
       (¬ ∃ σ, Sat σ cnf0) ∧ checkTrace c' cnf0.length ps = true ∧ c'.take cnf0.length = cnf0 ∧
@@ -64,16 +67,15 @@ theorem mainLoop_spec (cnf0 : CNF) (vars : List Nat) (nvars af : Nat) :
   intro fuel
   induction fuel with
   | zero =>
-    intro s pr _ _
+    intro s pr _ _ _
     refine ⟨by simp [mainLoop], by simp [mainLoop], ?_⟩
     intro e h; simp only [mainLoop] at h; cases h; rfl
   | succ f ih =>
-    intro s pr hinv hpr
+    intro s pr hinv hpr hnof
     unfold mainLoop
     split
     · -- outOfFuel
-      refine ⟨by simp, by simp, ?_⟩
-      intro e h; cases h; rfl
+      exact absurd rfl hnof
     · -- sat
       refine ⟨?_, by simp, by simp⟩
       intro a ha c hc
@@ -87,11 +89,14 @@ theorem mainLoop_spec (cnf0 : CNF) (vars : List Nat) (nvars af : Nat) :
     · -- undecided: decide, propagate
       have ht := hinv.trail.decide vars
       have hu := unitPropagate_spec (nvars + 2) s.cnf _ _ ht
+      have hfu := unitPropagate_fuel_suffices hinv.vars (nvars + 2)
+        (decideVar vars s.tr (s.level + 1)) (s.level + 1)
+        (by have := freeVars_le (varsOf cnf0) (decideVar vars s.tr (s.level + 1)); omega)
       dsimp only
-      generalize unitPropagate (nvars + 2) s.cnf (decideVar vars s.tr (s.level + 1)) (s.level + 1) = up at hu
+      generalize unitPropagate (nvars + 2) s.cnf (decideVar vars s.tr (s.level + 1)) (s.level + 1) = up at hu hfu
       obtain ⟨pr', tr'⟩ := up
       exact ih { s with tr := tr', level := s.level + 1 } pr'
-        ⟨hinv.pre, hinv.ent, hu.1, hinv.trace, hinv.reb⟩ hu.2
+        ⟨hinv.pre, hinv.ent, hu.1, hinv.trace, hinv.reb, hinv.vars⟩ hu.2 hfu
     · -- conflict
       rename_i cid
       obtain ⟨c0, hc0, hf0⟩ := hpr
@@ -146,11 +151,22 @@ theorem mainLoop_spec (cnf0 : CNF) (vars : List Nat) (nvars af : Nat) :
           · rename_i bl hbl
             have ht := (hinv.trail.backtrack bl).append_cnf [clause]
             have hu := unitPropagate_spec (nvars + 2) (s.cnf ++ [clause]) _ _ ht
+            have hvars' : ∀ c ∈ s.cnf ++ [clause], ∀ l ∈ c, l.1 ∈ varsOf cnf0 := by
+              intro c hc
+              rcases List.mem_append.mp hc with hc | hc
+              · exact hinv.vars c hc
+              · simp only [List.mem_singleton] at hc; subst hc
+                exact analyze_vars (fun v => v ∈ varsOf cnf0) hinv.vars _ _ _ _ _ _ _ han
+                  (hinv.vars c0 hc0m)
+            have hfu := unitPropagate_fuel_suffices hvars' (nvars + 2)
+              (s.tr.filter (fun a => decide (a.lvl ≤ bl))) bl
+              (by have := freeVars_le (varsOf cnf0) (s.tr.filter (fun a => decide (a.lvl ≤ bl))); omega)
             generalize unitPropagate (nvars + 2) (s.cnf ++ [clause])
-              (s.tr.filter (fun a => decide (a.lvl ≤ bl))) bl = up at hu
+              (s.tr.filter (fun a => decide (a.lvl ≤ bl))) bl = up at hu hfu
             obtain ⟨pr', tr'⟩ := up
             refine ih ⟨s.cnf ++ [clause], tr', bl, s.proofs ++ [(s.cnf.length, proof)], orc'⟩ pr'
-              ⟨⟨ext ++ [clause], by simp [hext]⟩, ?_, hu.1, htrace, sh ++ [r], hreb, hshadow'⟩ hu.2
+              ⟨⟨ext ++ [clause], by simp [hext]⟩, ?_, hu.1, htrace, ⟨sh ++ [r], hreb, hshadow'⟩, hvars'⟩
+              hu.2 hfu
             intro c hc
             rcases List.mem_append.mp hc with hc | hc
             · exact hinv.ent c hc
